@@ -2,9 +2,9 @@ package sym
 
 import (
 	"fmt"
+	"go/types"
 	"io"
 	"os"
-	"go/types"
 	"sort"
 	"strings"
 	"time"
@@ -38,6 +38,7 @@ type Stats struct {
 	Forks        int
 	Merges       int
 	Allocs       int
+	Goroutines   int
 	Paths        int
 	Calls        int
 	MaxDepthSeen int
@@ -47,31 +48,32 @@ type Stats struct {
 
 // Engine is one symbolic execution context (one harness run).
 type Engine struct {
-	prog       *ssa.Program
-	tb         *TB
-	solver     *Solver
-	cfg        Config
-	base       map[int]Value
-	nextObj    int
-	globals    map[*ssa.Global]int
-	pkgState   map[*ssa.Package]int
-	fninfo     map[*ssa.Function]*FnInfo
-	stats      Stats
-	rep        *Report
-	stack      []*ssa.Function
-	stubs      map[string]*ssa.Function
-	config     map[string]string
-	typeIDs    map[string]int
-	cryptoTabs *cryptoState
-	j2         *j2State
-	funcObjs   map[*ssa.Function]int
-	lockHook   func(st *State, kind string, p *PtrV)
-	deadline   time.Time
-	uniqueTab  []uniqueEnt
+	prog          *ssa.Program
+	tb            *TB
+	solver        *Solver
+	cfg           Config
+	base          map[int]Value
+	nextObj       int
+	globals       map[*ssa.Global]int
+	pkgState      map[*ssa.Package]int
+	fninfo        map[*ssa.Function]*FnInfo
+	stats         Stats
+	rep           *Report
+	stack         []*ssa.Function
+	stubs         map[string]*ssa.Function
+	config        map[string]string
+	typeIDs       map[string]int
+	cryptoTabs    *cryptoState
+	j2            *j2State
+	funcObjs      map[*ssa.Function]int
+	lockHook      func(st *State, kind string, p *PtrV)
+	deadline      time.Time
+	uniqueTab     []uniqueEnt
 	cryptoCounter int
-	initDepth  int // >0 while a package initialiser is being interpreted
-	progress   bool
-	lastTick   time.Time
+	goCounter     int
+	initDepth     int // >0 while a package initialiser is being interpreted
+	progress      bool
+	lastTick      time.Time
 }
 
 type abortErr struct {
